@@ -87,6 +87,8 @@ func runC06(w *World) *Result {
 	}
 	r.Analysed["slot_stores"] = len(pf.Slots)
 	c06Slots(w, pf, r)
+	r.Rule("R-C06-subst", "a parsed value is replaced by a synthesised node only when it is the nil literal", 1)
+	c06Subst(w, pf, r)
 	// second line
 	bash, err1 := BuildBackend(w, "bash")
 	batch, err2 := BuildBackend(w, "batch")
@@ -995,4 +997,125 @@ func c06Target(w *World, r *Result) {
 		}
 	}
 	_ = types.Typ
+}
+
+// c06Subst: where the parser replaces a parsed expression in a value list by a node it
+// synthesises itself (nil → empty slice for slice results), the synthesised node passes
+// the type test of the position by construction, so the replacement must be confined to
+// the nil literal: the store is dominated by the true branch of a flag accessor (a method
+// returning a bool field of the literal node) applied to the replaced element. A test on
+// the element's text (len(value) == 0) also matches the string literal "".
+func c06Subst(w *World, pf *ParserFacts, r *Result) {
+	rule := "R-C06-subst"
+	n := 0
+	for _, fn := range w.Funcs("parser") {
+		perFn := 0
+		for _, b := range fn.Blocks {
+			for _, ins := range b.Instrs {
+				st, ok := ins.(*ssa.Store)
+				if !ok {
+					continue
+				}
+				ia, ok := st.Addr.(*ssa.IndexAddr)
+				if !ok {
+					continue
+				}
+				if is, list := pf.exprLike(ia.X.Type()); !is || !list {
+					continue
+				}
+				os := pf.origins(st.Val, map[ssa.Value]bool{})
+				synth := len(os) > 0
+				for _, o := range os {
+					if o.kind != "node" {
+						synth = false
+					}
+				}
+				if !synth {
+					continue
+				}
+				// only replacements: the list element is also read at the same index in this function
+				var elems []ssa.Value
+				for _, b2 := range fn.Blocks {
+					for _, i2 := range b2.Instrs {
+						if u, ok := i2.(*ssa.UnOp); ok && u.Op == token.MUL {
+							if ia2, ok := u.X.(*ssa.IndexAddr); ok && ia2 != ia && ia2.Index == ia.Index && rootOf(ia2.X, 0) == rootOf(ia.X, 0) {
+								elems = append(elems, u)
+							}
+						}
+					}
+				}
+				if len(elems) == 0 {
+					continue
+				}
+				n++
+				perFn++
+				key := fmt.Sprintf("subst:%s#%d", FuncName(fn), perFn)
+				guarded := ""
+				for d := b; d != nil && guarded == ""; d = d.Idom() {
+					p := d.Idom()
+					if p == nil {
+						break
+					}
+					c, neg := condOf(p)
+					call, ok := c.(*ssa.Call)
+					if !ok || neg || !(p.Succs[0].Dominates(b) && len(p.Succs[0].Preds) == 1) {
+						continue
+					}
+					callee := call.Call.StaticCallee()
+					if callee == nil || len(call.Call.Args) != 1 || len(callee.Blocks) != 1 {
+						continue
+					}
+					// receiver derives from the replaced element
+					recv := call.Call.Args[0]
+					fromElem := false
+					var back func(v ssa.Value, d int)
+					back = func(v ssa.Value, d int) {
+						if d > 4 {
+							return
+						}
+						for _, e := range elems {
+							if v == e {
+								fromElem = true
+							}
+						}
+						switch x := v.(type) {
+						case *ssa.Extract:
+							back(x.Tuple, d+1)
+						case *ssa.TypeAssert:
+							back(x.X, d+1)
+						case *ssa.Phi:
+							for _, e := range x.Edges {
+								back(e, d+1)
+							}
+						}
+					}
+					back(recv, 0)
+					if !fromElem {
+						continue
+					}
+					// flag accessor: returns a bool field of its receiver
+					ret, ok := callee.Blocks[0].Instrs[len(callee.Blocks[0].Instrs)-1].(*ssa.Return)
+					if !ok || len(ret.Results) != 1 || !isBool(ret.Results[0].Type()) {
+						continue
+					}
+					switch x := ret.Results[0].(type) {
+					case *ssa.Field:
+						guarded = callee.Name()
+					case *ssa.UnOp:
+						if _, ok := x.X.(*ssa.FieldAddr); ok {
+							guarded = callee.Name()
+						}
+					}
+				}
+				if guarded != "" {
+					r.Ok(rule, key, w.Pos(st.Pos()), "a parsed value is replaced by a synthesised node only under the flag accessor "+guarded+"() of the replaced literal")
+				} else {
+					r.Bad(rule, key, w.Pos(st.Pos()), "a parsed value is replaced by a synthesised node (which passes the position's type test by construction) without testing that the replaced value is the nil literal: other literals that satisfy the condition are accepted where their type is not allowed")
+				}
+			}
+		}
+	}
+	if n == 0 {
+		r.Bad(rule, "subst:none", "-", "no replacement of a parsed value by a synthesised node found (the nil → empty slice rule for slice results is expected)")
+	}
 }
